@@ -185,6 +185,9 @@ def message_type(msg_type: str, fields: List[str]):
             "__qualname__": "message_type",
             "__type__": self.__class__.__qualname__,
         }
+        if "cycle_id" not in fields and hasattr(self, "cycle_id"):
+            # set by synchronous computations when the message is posted
+            r["cycle_id"] = self.cycle_id
         for arg in fields:
             try:
                 val = getattr(self, arg)
@@ -628,6 +631,19 @@ class SynchronizationMsg(Message):
 
     def __repr__(self):
         return f"SynchronizationMsg()"
+
+    def _simple_repr(self):
+        return {
+            "__module__": self.__module__,
+            "__qualname__": self.__class__.__qualname__,
+            "cycle_id": self.cycle_id,
+        }
+
+    @classmethod
+    def _from_repr(cls, r):
+        msg = cls()
+        msg.cycle_id = r.get("cycle_id")
+        return msg
 
 
 class SynchronousComputationMixin:
